@@ -366,6 +366,18 @@ class Scope:
 
     def pred(self):
         rng = self.g.rng
+        # most predicates depend on a random choice of this scope, so that resampling /
+        # moving / re-constraining that choice can switch the branch
+        sites = [s for s in self.body if s["k"] == "site" or (s["k"] == "vmap" and "dist" in s["callee"])]
+        if sites and rng.random() < 0.6:
+            st = sites[int(rng.integers(len(sites)))]
+            dist = st["dist"] if st["k"] == "site" else st["callee"]["dist"]
+            v = self.scalar_from(st["addr"])
+            thr = {"normal": 0.0, "p_normal": 0.0, "mvn": 0.0, "uniform": 1.7, "p_uniform": 1.7, "exponential": 0.5,
+                   "flip": 0.5, "p_flip": 0.5, "categorical": 0.5, "p_cat": 0.5}[dist]
+            if dist in ("normal", "p_normal", "mvn"):
+                thr = round(float(rng.normal() * 0.3), 3)
+            return ["gt", v, ["c", thr]]
         bools = [n for n, t in self.vars.items() if t == ("b", ())]
         if bools and rng.random() < 0.4:
             e = ["v", bools[rng.integers(len(bools))]]
